@@ -614,6 +614,20 @@ theorem with_bytes_empty_panics : ¬ constructor_with_bytesStatement := by
 
 example (x : Ext) : withBytes x [] = .panic := by simp [withBytes, b64, base64PublicKeyValidate]
 
+/-- `ClientSecret::new()` builds the "simple" form of a UUID: 32 lower-case hexadecimal digits. Every
+such string is accepted by the client secret parser. -/
+theorem constructor_accepted_client_secret (x : Ext) (s : Str) (hlen : s.length = 32)
+    (hhex : ∀ b ∈ s, isDigit b = true ∨ (97 ≤ b ∧ b ≤ 102)) :
+    validate x .clientSecret s = .ok () := by
+  apply gram_clientSecret
+  rw [Bool.and_eq_true, nonEmptyAll_iff]
+  refine ⟨⟨by intro h; simp [h] at hlen, ?_⟩, by simp [max255]; omega⟩
+  intro b hb
+  rcases hhex b hb with h | h
+  · simp [alnum_eq, isAlnum, h]
+  · have : isLower b = true := by simp [isLower]; omega
+    simp [alnum_eq, isAlnum, this]
+
 /-! ## `UserId` conformance accessors -/
 
 /-- On an accepted user ID the conformance accessors never panic; `validate_strict()` (the method)
@@ -721,6 +735,7 @@ example : validate ⟨ipv6Ref, ipv4Ref, fun _ => false⟩ .server
 #print axioms constructor_new_not_always_accepted
 #print axioms constructor_with_bytes_partial
 #print axioms with_bytes_empty_panics
+#print axioms constructor_accepted_client_secret
 #print axioms accessors_user_conformance
 #print axioms ipv6_reference_in_spec_grammar
 #print axioms server_accept_iff_grammar
